@@ -211,3 +211,76 @@ fn native_gamedata_damaged_nopanic() {
     let _ = std::fs::remove_dir_all(&root);
     s.finish("native_gamedata_damaged_nopanic");
 }
+
+/// a standard dat entry whose content is stored in raw blocks of at most 16000 bytes (header padded to 128, each block padded to 128)
+fn ngd_standard_entry(content: &[u8]) -> Vec<u8> {
+    let mut payload = vec![]; let mut table = vec![];
+    let chunks: Vec<&[u8]> = if content.is_empty() { vec![&content[0..0]] } else { content.chunks(16000).collect() };
+    for c in chunks.iter() {
+        table.extend_from_slice(&(payload.len() as i32).to_le_bytes());
+        let mut b = vec![]; b.extend_from_slice(&16u32.to_le_bytes()); b.extend_from_slice(&0u32.to_le_bytes()); b.extend_from_slice(&32000i32.to_le_bytes()); b.extend_from_slice(&(c.len() as i32).to_le_bytes()); b.extend_from_slice(c);
+        while b.len() % 128 != 0 { b.push(0); }
+        table.extend_from_slice(&(b.len() as u16).to_le_bytes()); table.extend_from_slice(&(c.len() as u16).to_le_bytes());
+        payload.extend_from_slice(&b);
+    }
+    let mut info = vec![];
+    info.extend_from_slice(&0u32.to_le_bytes()); info.extend_from_slice(&2i32.to_le_bytes()); info.extend_from_slice(&(content.len() as u32).to_le_bytes()); info.extend_from_slice(&[0u8; 8]); info.extend_from_slice(&(chunks.len() as u32).to_le_bytes());
+    info.extend_from_slice(&table);
+    while info.len() % 128 != 0 { info.push(0); }
+    let n = info.len() as u32; info[0..4].copy_from_slice(&n.to_le_bytes());
+    info.extend_from_slice(&payload);
+    info
+}
+
+//@unit props=C02,C01 label=B tier=quick native=1 fn=gamedata::GameData::{extract,get_dat_file},sqpack::data::SqPackData::read_from_offset bound="by execution on a temporary installation: base and ex1 repositories, 3 categories, chunks 0 and 1, 14 files of 0..40000 bytes stored as standard entries in dat0, dat1, dat3 and dat7 at 128-aligned offsets, found through .index and .index2; absent paths and an entry whose dat file is missing"
+//@desc extracting a stored path yields exactly the bytes that were packed, from the data file and offset its index entry designates (file number, chunk, category and repository in the dat file name); absent paths and entries pointing at a missing dat file yield None
+#[test]
+fn native_gamedata_extract() {
+    let mut cases = 0u64;
+    let root = std::env::temp_dir().join(format!("physis-verif-c02g-{}", std::process::id()));
+    let _ = std::fs::remove_dir_all(&root);
+    let game = root.join("game");
+    for d in ["ffxiv", "ex1"] { std::fs::create_dir_all(game.join("sqpack").join(d)).unwrap(); }
+    std::fs::write(game.join("ffxivgame.ver"), "2023.09.28.0000.0000").unwrap();
+    std::fs::write(game.join("sqpack/ex1/ex1.ver"), "2023.09.28.0000.0000").unwrap();
+    // (directory, name stem, index kind, files: (path, dat id, content length))
+    let lens = [0usize, 1, 127, 128, 5000, 16000, 16001, 40000];
+    let groups: Vec<(&str, &str, u32, Vec<(String, u8)>)> = vec![
+        ("ffxiv", "0a0000.win32", 0, vec![("exd/root.exl".into(), 0), ("exd/sheet/achievement.exh".into(), 1), ("exd/sheet/achievement_0_en.exd".into(), 3), ("exd/big.exd".into(), 7)]),
+        ("ffxiv", "040001.win32", 1, vec![("chara/human/c0101/skeleton/base/b0001/skl_c0101b0001.sklb".into(), 0), ("chara/equipment/e0001/model/c0101e0001_top.mdl".into(), 1), ("chara/xls/charamake/human.cmp".into(), 0)]),
+        ("ex1", "020100.win32", 0, vec![("bg/ex1/01_roc_r2/twn/r2t1/level/planmap.lgb".into(), 0), ("bg/ex1/01_roc_r2/common/texture/a.tex".into(), 3), ("bg/ex1/zone/b.tex".into(), 3)]),
+        ("ex1", "020101.win32", 1, vec![("bg/ex1/02_dra_d2/fld/d2f1/bgplate/0000.mdl".into(), 1), ("bg/ex1/02_dra_d2/fld/d2f1/bgplate/terrain.tera".into(), 0), ("bg/ex1/02_dra_d2/fld/d2f1/level/bg.lgb".into(), 1), ("bg/ex1/x/y.z".into(), 7)]),
+    ];
+    let mut stored: Vec<(String, Vec<u8>)> = vec![];
+    for (gi, (dir, stem, kind, files)) in groups.iter().enumerate() {
+        let mut dats: std::collections::BTreeMap<u8, Vec<u8>> = std::collections::BTreeMap::new();
+        let mut ents: Vec<(String, u8, u64)> = vec![];
+        for (fi, (path, dat)) in files.iter().enumerate() {
+            let n = lens[(gi * 3 + fi) % lens.len()];
+            let mut x = (gi as u32 * 97 + fi as u32 * 13).wrapping_mul(2654435761);
+            let content: Vec<u8> = (0..n).map(|_| { x = x.wrapping_mul(1664525).wrapping_add(1013904223); (x >> 24) as u8 }).collect();
+            let f = dats.entry(*dat).or_insert_with(|| vec![0xEEu8; 0x800]);
+            let off = f.len() as u64;
+            f.extend_from_slice(&ngd_standard_entry(&content));
+            f.extend_from_slice(&[0u8; 256]);
+            ents.push((path.clone(), *dat, off));
+            stored.push((path.clone(), content));
+        }
+        for (dat, bytes) in dats.iter() { std::fs::write(game.join("sqpack").join(dir).join(format!("{stem}.dat{dat}")), bytes).unwrap(); }
+        std::fs::write(game.join("sqpack").join(dir).join(format!("{stem}.{}", if *kind == 0 { "index" } else { "index2" })), ngd_index(*kind, &ents)).unwrap();
+    }
+    // an entry whose dat file does not exist
+    std::fs::write(game.join("sqpack/ffxiv/0c0000.win32.index"), ngd_index(0, &[("music/ffxiv/bgm_missing.scd".to_string(), 5, 0x80)])).unwrap();
+    let mut gd = GameData::from_existing(Platform::Win32, game.to_str().unwrap()).expect("installation opens");
+    for round in 0..2 { for (path, content) in stored.iter() {
+        let q = if round == 0 { path.clone() } else { ngd_mixed_case(path, 1) };
+        let got = gd.extract(&q).unwrap_or_else(|| panic!("{q} is stored and extractable"));
+        assert!(got == *content, "{q}: extraction returns exactly the packed bytes ({} vs {} bytes)", got.len(), content.len());
+        cases += 1;
+    } }
+    assert!(gd.extract("exd/not_stored.exd").is_none() && gd.extract("bg/ex1/not/stored.tex").is_none(), "absent paths yield nothing");
+    assert!(gd.exists("music/ffxiv/bgm_missing.scd") && gd.extract("music/ffxiv/bgm_missing.scd").is_none(), "an entry pointing at a missing dat file yields nothing");
+    cases += 3;
+    let _ = std::fs::remove_dir_all(&root);
+    println!("NATIVE native_gamedata_extract cases={cases}");
+}
